@@ -1,16 +1,6 @@
-#![allow(dead_code)]
-mod chain;
-mod engine;
-mod gag;
-mod hb;
-mod hist;
-mod model;
-mod powmodel;
-mod props;
-mod snapshot;
-mod sut;
 
-use engine::{run_property, RunArgs, Tier};
+use vp::engine::{run_property, RunArgs, Tier};
+use vp::{gag, props, sut};
 
 fn usage() -> ! {
     eprintln!("usage: vp <Cxx> [--tier quick|thorough] [--replay FILE] [--seed N] [--workers N] [--cases N]");
